@@ -9,7 +9,7 @@ def decode(string):
   return unsafe_decode(string)
 
 def validate_encoded(string):
-  if not re.match("^[ !-~]+$", string):
+  if not re.match("^[!-~]+( [!-~]+)*$", string):
     raise gfapy.FormatError(
       "{} is not a valid list of GFA2 identifier\n".format(repr(string))+
       "(it contains non-printable characters)")
